@@ -16,7 +16,7 @@ pub fn build(mut t: Tape) -> Built {
     let via_game = t.draw(CFG, 5) == 0;
     let (version, entry, default_port) = if via_game {
         let i = t.draw(CFG, QUAKE_GAMES.len() as u64) as usize;
-        (QUAKE_GAMES[i].version, Entry::QuakeGame(i), QUAKE_GAMES[i].port)
+        (QUAKE_GAMES[i].version, Entry::QuakeGame(i), crate::golden::module_port(QUAKE_GAMES[i].module, QUAKE_GAMES[i].port))
     } else {
         let version = 1 + t.draw(CFG, 3) as u8;
         (version, Entry::Quake { version }, 27960)
